@@ -22,7 +22,7 @@ def load_ref():
 
 def table_check(ctx):
     out = os.path.join(build.BUILD, "errtab.txt")
-    rc, o = build.sh([build.harness_bin(), "errtab", out])
+    rc, o = build.sh([build.harness_bin(prod=True), "errtab", out])
     if rc != 0:
         raise RuntimeError("errtab failed: " + o)
     ref = load_ref()
